@@ -434,7 +434,8 @@ def make_fallback():
         n = 4
         u = (np.arange(1, n + 1, dtype=float) / (n + 1)).reshape(n, 1)
         w = np.full(n, 1.0 / n)
-        fb = 123.0
+        # the fallback may lie below or above the fitted value: a FINITE fitted dof (5.0) is kept either way
+        fb = 123.0 if integer(ctx, "fallback_above_fit", lo=0, hi=1).resolve(0, 1) == 1 else 2.5
         K = integer(ctx, "K", lo=1, hi=2).resolve(1, 2)
         labels = np.array([0, 0, 0, 0] if K == 1 else [0, 0, 1, 1])
         fitd = FitDouble(ctx)
@@ -444,8 +445,10 @@ def make_fallback():
         fitg = FitDouble(ctx)
         with patched(modes_mod, fit_mvstud=fitg, np=NpProxy(random=rnd)):
             ms2 = ModeStatistics.from_global(u, w, dof_fallback=fb)
-        ok1 = all(float(v) in (5.0, fb) for v in ms1.degrees_of_freedom)
-        ok2 = all(float(v) in (5.0, fb) for v in ms2.degrees_of_freedom)
+        want1 = [5.0 if math.isfinite(float(c[-1])) else fb for c in fitd.returned] if hasattr(fitd, "returned") else None
+        ok1 = all(float(v) in (5.0, fb) for v in ms1.degrees_of_freedom) and (want1 is None or [float(v) for v in ms1.degrees_of_freedom] == want1)
+        want2 = [5.0 if math.isfinite(float(c[-1])) else fb for c in fitg.returned] if hasattr(fitg, "returned") else None
+        ok2 = all(float(v) in (5.0, fb) for v in ms2.degrees_of_freedom) and (want2 is None or [float(v) for v in ms2.degrees_of_freedom] == want2)
         ctx.check("non-finite-dof-replaced-by-the-configured-fallback(from_particles)", z3.BoolVal(bool(ok1)), detail=[float(v) for v in ms1.degrees_of_freedom])
         ctx.check("non-finite-dof-replaced-by-the-configured-fallback(from_global)", z3.BoolVal(bool(ok2)), detail=[float(v) for v in ms2.degrees_of_freedom])
         return None
@@ -459,18 +462,20 @@ def make_fallback():
         bad = []
         for K in (1, 2):
             labels = np.zeros(n, dtype=int) if K == 1 else np.array([0] * 4 + [1] * 4)
-            with patched(modes_mod, fit_mvstud=lambda data, *a, **k: (np.mean(data, axis=0), np.eye(1) * 0.01, np.inf)):
-                saved = np.random.get_state()
-                np.random.seed(0)
-                ms = ModeStatistics.from_particles(u, w, labels, dof_fallback=2.5)
-                np.random.set_state(saved)
-            if not np.allclose(ms.degrees_of_freedom, 2.5):
-                bad.append((K, ms.degrees_of_freedom.tolist()))
-        return {"reproduced": bool(bad), "signature": "ModeStatistics:configured-dof-fallback-ignored", "payload": {"cases": bad},
-                "what": f"ModeStatistics.from_particles(dof_fallback=2.5) with a fit that returns nu=inf gives dof {bad}"}
+            for fitted, fbk, want in ((np.inf, 2.5, 2.5), (5.0, 2.5, 5.0), (5.0, 123.0, 5.0), (np.inf, 123.0, 123.0)):
+                with patched(modes_mod, fit_mvstud=lambda data, *a, **k: (np.mean(data, axis=0), np.eye(1) * 0.01, fitted)):
+                    saved = np.random.get_state()
+                    np.random.seed(0)
+                    ms = ModeStatistics.from_particles(u, w, labels, dof_fallback=fbk)
+                    msg = ModeStatistics.from_global(u, w, dof_fallback=fbk)
+                    np.random.set_state(saved)
+                if not (np.allclose(ms.degrees_of_freedom, want) and np.allclose(msg.degrees_of_freedom, want)):
+                    bad.append({"K": K, "fitted": fitted, "fallback": fbk, "from_particles": ms.degrees_of_freedom.tolist(), "from_global": msg.degrees_of_freedom.tolist()})
+        return {"reproduced": bool(bad), "signature": "ModeStatistics:dof-fallback-contract", "payload": {"cases": bad},
+                "what": f"ModeStatistics.from_particles/from_global: fitted dof vs configured fallback (finite fits are kept, non-finite ones replaced): {bad[:2]}"}
 
     return Obligation("dof-fallback", harness, replay=replay, encodes=[ModeStatistics.from_particles, ModeStatistics.from_global],
-                      bounds="4 points, K in {1,2} clusters, fit returns a symbolic finite-or-inf dof, configured fallback 123.0",
+                      bounds="4 points, K in {1,2} clusters, fit returns a symbolic finite-or-inf dof (5.0 / inf), configured fallback 123.0 or 2.5 (above / below the finite fit)",
                       stubs=["fit_mvstud -> contract double", "np.random.choice -> covering representative"], theory="QF_LIA")
 
 
